@@ -5,6 +5,7 @@
 import DltVerif.Lemmas.Reader
 import DltVerif.Lemmas.RoundTripMsg
 import DltVerif.Model.Stats
+import DltVerif.Spec.Stats
 
 namespace Dlt
 
@@ -93,15 +94,9 @@ theorem visit_eq (w : Bool) (bs : Bytes) : visit w bs = visitPieces w (Spec.cut 
     { buf := [], data := bs, sched := [] } (by simp)]
   rfl
 
-/-- what the collector is handed for a message: log level, ECU id, application and context
-    id, verbose flag - all from the headers -/
-def statOf (m : Message) : Statistic :=
-  { logLevel := match m.extendedHeader with
-      | some eh => (match eh.messageType with | .log l => some l | _ => none)
-      | none => none
-    ecuId := m.header.ecuId
-    ext := m.extendedHeader.map fun eh => (eh.applicationId, eh.contextId)
-    isVerbose := match m.extendedHeader with | some eh => eh.verbose | none => false }
+/-- what the collector is handed for a message: the Spec's reading of its headers
+    (`Spec.statisticOfMessage`: log level, ECU id, application and context id, verbose flag) -/
+abbrev statOf (m : Message) : Statistic := Spec.statisticOfMessage m
 
 /-- the headers of the serialisation of a well-formed message decode to `statOf` -/
 theorem statisticOfSlice_asBytes (m : Message) (w : Bool) (h : m.wf = true)
@@ -109,7 +104,7 @@ theorem statisticOfSlice_asBytes (m : Message) (w : Bool) (h : m.wf = true)
   obtain ⟨hsh, hver, hid, hext, hehwf, _, _, htot⟩ := Message.wf_elim m h
   subst hw
   rw [Message.asBytes_eq]
-  unfold statisticOfSlice statOf
+  unfold statisticOfSlice statOf Spec.statisticOfMessage
   have hstd := dltStandardHeader_asBytes m.header hver hid htot
     (ehBytes m.extendedHeader ++ m.payload.asBytes m.header.endianness)
   cases hs : m.storageHeader with
